@@ -19,6 +19,7 @@ were observed on the real code through harness/c17 / harness/c18 before the repa
 known_findings.d/C17.jsonl and C18.jsonl).
 -/
 import TinyVerif.Proofs.RingInv
+import TinyVerif.Proofs.RingDrain
 import TinyVerif.Gen.RingBorrow
 namespace TinyVerif.Ring
 
@@ -221,6 +222,50 @@ theorem cq_head_lag {k kc c cc : Nat} (p : Params k kc c cc) (flags : Nat) (ops 
   rw [if_pos hp] at hl
   rw [hnil, hl] at hle
   simp at hle
+
+/-- DRAINING (round 8).  From every reachable state, calling `get_next_cqe` as many times as there are
+posted-and-unreaped completions returns exactly those completions, oldest first, each with the content the kernel
+posted (nothing skipped at any fill level — an exactly full ring and a wrapped counter included); afterwards
+everything posted has been reaped exactly once (`reaped = posted`) and one further call answers `None`. -/
+theorem cq_drain {k kc c cc : Nat} (p : Params k kc c cc) (flags : Nat) (ops : List Op) :
+    let s := reached flags k kc c cc ops
+    let r := run .fixed s (List.replicate (s.posted.length - s.reaped.length) .reap)
+    r.2 = (s.posted.drop s.reaped.length).map (fun e => Out.cqe e.val) ∧
+    r.1.reaped = s.posted ∧ r.1.posted = s.posted ∧
+    (step .fixed r.1 .reap).2 = .noCqe := by
+  obtain ⟨inq, unpub, cinq, hold, h⟩ := reached_inv p flags ops
+  generalize reached flags k kc c cc ops = s at *
+  have hn : s.posted.length - s.reaped.length = cinq.length := by
+    rw [h.posted_eq, List.length_append]; omega
+  have hd : s.posted.drop s.reaped.length = cinq := by
+    rw [h.posted_eq]; simp
+  obtain ⟨d1, d2, d3, hold', d4⟩ := drain_inv cinq h
+  simp only [hn, hd]
+  refine ⟨d2, by rw [d1, h.posted_eq], d3, ((inv_reap d4).1 rfl).1⟩
+
+/-- the kernel side of the same statement: a kernel that consumes without running out of budget takes exactly the
+published-and-unconsumed submissions, in order, and then `consumed = flushed` (every published submission reaches
+the kernel exactly once) -/
+theorem sq_drain {k kc c cc : Nat} (p : Params k kc c cc) (flags : Nat) (ops : List Op) (n : Nat)
+    (hn : (reached flags k kc c cc ops).flushed.length - (reached flags k kc c cc ops).consumed.length ≤ n) :
+    (step .fixed (reached flags k kc c cc ops) (.consume n)).2 =
+      .consumed ((reached flags k kc c cc ops).flushed.drop (reached flags k kc c cc ops).consumed.length) ∧
+    (step .fixed (reached flags k kc c cc ops) (.consume n)).1.consumed = (reached flags k kc c cc ops).flushed ∧
+    (step .fixed (reached flags k kc c cc ops) (.consume n)).1.flushed = (reached flags k kc c cc ops).flushed := by
+  obtain ⟨inq, unpub, cinq, hold, h⟩ := reached_inv p flags ops
+  generalize reached flags k kc c cc ops = s at *
+  have hl : inq.length ≤ n := by
+    rw [h.flushed_eq, List.length_append] at hn; omega
+  have hd : s.flushed.drop s.consumed.length = inq := by
+    rw [h.flushed_eq]; simp
+  obtain ⟨c1, c2, c3, _⟩ := consume_all n h hl
+  rw [step_consume, hd]
+  exact ⟨by rw [c1], by rw [c2, h.flushed_eq], c3⟩
+
+/-- non-vacuity: an exactly full completion ring (4 of 4) whose counters wrap is drained completely -/
+example :
+    (run .fixed (reached 0 1 2 0 4294967294 [.post [5, 6, 7, 8]]) (List.replicate 4 .reap)).2 =
+      [.cqe 5, .cqe 6, .cqe 7, .cqe 8] := by decide
 
 /-- `needs_wakeup` answers exactly whether the kernel set IORING_SQ_NEED_WAKEUP, whatever the other bits of the SQ
 flags word (CQ overflow, task-run) are: with it an application following the wake-up protocol of an SQPOLL ring
